@@ -166,6 +166,11 @@ pub fn gen_sources(rng: &mut Rng, next: &mut u64, kmin: u64, kmax: u64, max_tile
 		}
 		let style = pick_style_vt(rng);
 		let mut spec = SrcSpec { fmt: 1, comp, kind, tiles: assign_ids_style(rng, &coords, next, style) };
+		// a large, highly repetitive tile (brotli ratio far above 1032:1) – mostly in brotli sources
+		if (comp == 2 && rng.chance(2, 3)) || rng.chance(1, 12) {
+			let k = *rng.pick(&spec.tiles.keys().copied().collect::<Vec<_>>());
+			spec.tiles.insert(k, next_id_where(next, repetitive));
+		}
 		if spec.kind == "mbtiles" {
 			// the mbtiles reader cannot open zoom gaps (separate defect, not C02's): keep one level
 			let z0 = spec.tiles.keys().next().unwrap().0;
